@@ -98,3 +98,76 @@ def c01(ctx):
         enum_replay(ctx, name, "C01")
     record_and_validate_text(ctx, "C01", False, 400 if quick(ctx) else 6000, 250000 if quick(ctx) else 4000000)
     ctx.exhaustive = True
+
+
+# ------------------------------------------------------------------------------
+# Edit.tla replays (C02 C10 C11 C13 C14 C17)
+
+def edit_replay(ctx, cfgname, prop_id, sermodes=1, timeout=3000):
+    r = ctx.tlc("MC_Edit", cfg="MC_Edit_%s.cfg" % cfgname, dump="states", label=cfgname, timeout=timeout)
+    rep = ctx.vh(["g-edit", "-dump", r["dump"], "-property", prop_id, "-expect", str(r["distinct"]),
+                  "-sermodes", str(sermodes)], timeout=7200)
+    os.remove(r["dump"])
+    return rep
+
+
+@prop("C02")
+def c02(ctx):
+    ctx.rule = ("G: (a) every document of Edit.tla's document sets (all tree shapes up to 4/5 nodes incl. duplicate keys, every scalar kind, "
+                "several roots) parsed from the spec's canonical text, in both string modes and on both kernels, read back through five "
+                "independent API families and compared with the spec's abstract value; (b) every accepted text of the JsonEnum "
+                "enumeration (white-space layouts, every token kind) compared with the value the recogniser's semantic actions denote; "
+                "V: documents generated by construction, all readers vs the constructed value, and the recorded value checked by TLC. "
+                "Non-trivial = a document with at least one container member (tape longer than 6 words) or an accepted enumeration text.")
+    edit_replay(ctx, "parse_q" if quick(ctx) else "parse_t", "C02")
+    for name in ("struct", "str"):
+        module, pre, suf, nd, ql, tl = ENUM[name]
+        L = ql if quick(ctx) else tl
+        r = ctx.tlc(module, consts={"MaxLen": L}, dump="states", label="%s L=%d" % (name, L), timeout=3000)
+        ctx.vh(["g-text", "-dump", r["dump"], "-prefix", pre, "-suffix", suf, "-property", "C02", "-aspect", "value",
+                "-expect", str(r["distinct"]), "-seed", str(ctx.seed), "-padsample", "1000000"], timeout=7200)
+        os.remove(r["dump"])
+    record_and_validate_text(ctx, "C02", False, 300 if quick(ctx) else 5000, 200000 if quick(ctx) else 3000000)
+    ctx.exhaustive = True
+
+
+@prop("C17")
+def c17(ctx):
+    ctx.rule = ("M: Tape!WellFormed is an invariant of Edit.tla on every reachable tape; G: the real tape after Parse/ParseND is compared "
+                "word for word (tags, container and root pointers, string flag/offset/length, number words) with Tape!TapeOf for every "
+                "document of the document sets in both string modes and on both kernels; deserialized tapes are compared in C11. "
+                "Non-trivial = tape longer than 6 words.")
+    edit_replay(ctx, "parse_q" if quick(ctx) else "parse_t", "C17")
+    edit_replay(ctx, "del_q", "C17")   # detape aspect: deserialized edited tapes
+    ctx.exhaustive = True
+
+
+@prop("C13")
+def c13(ctx):
+    ctx.rule = ("M+G: every history of <= 2 Set* operations (null/bool/int/uint/float/string, allowed and refused) at every value position "
+                "of every document of the edit document set, both string modes; after the last operation the exact tape and string "
+                "buffer, every read API, marshalling of every value and a serialize round trip are compared with the spec state. "
+                "Non-trivial = history with at least one operation.")
+    edit_replay(ctx, "set_q" if quick(ctx) else "set_t", "C13")
+    ctx.exhaustive = True
+
+
+@prop("C14")
+def c14(ctx):
+    ctx.rule = ("M+G: every history of <= 2 operations drawn from Array.DeleteElems (every subset), Object.DeleteElems (no filter / every "
+                "key filter incl. absent keys / nil fn / every subset), SetNull and SetString, at every container of every document; "
+                "callbacks, exact NOP-filled tape, every read API, marshalling (Iter, Array, Elements) and a serialize round trip "
+                "compared after the last operation. Non-trivial = history with at least one operation.")
+    edit_replay(ctx, "del_q" if quick(ctx) else "del_t", "C14", sermodes=1 if quick(ctx) else 2)
+    ctx.exhaustive = True
+
+
+@prop("C10")
+def c10(ctx):
+    ctx.rule = ("G: Iter.MarshalJSON from the root and from an iterator scoped on every inner value, Array.MarshalJSON, Elements.MarshalJSON "
+                "compared byte for byte with Marshal!Render for every document and every one-step edit; output re-parsed and "
+                "re-marshalled (fixed point). Non-trivial = output with a separator or after an edit.")
+    edit_replay(ctx, "marshal_q" if quick(ctx) else "del_t", "C10")
+    if not quick(ctx):
+        edit_replay(ctx, "set_t", "C10")
+    ctx.exhaustive = True
